@@ -15,6 +15,12 @@
  *    g_pos"), required and ensured; bytes appended earlier in the same API call are
  *    preserved by the exact write frames (conditional __CPROVER_object_upto slices).
  * Because g_pos, g_hlen, g_lbyte are arbitrary, the clauses hold for every position. */
+#ifdef VERIF_TRACK_WFAIL
+/* write_evbuf may give up (die) ONLY after a write(2) that failed: a zero-byte write, a short write or any
+ * successful result is never a reason to abort the traced program */
+extern int g_wfail;
+#define VERIF_DIE_HOOK __CPROVER_assert(g_wfail, "write_evbuf dies only after a write(2) that returned -1")
+#endif
 #include "rt_common.h"
 /* errno after a failed write(2) is ARBITRARY (EINTR, EIO, ENOSPC, ...): the unit reads it as the ghost
  * verif_errno, a static that DFCC havocs before the checked function and that the write model never
@@ -54,7 +60,12 @@ void c_write_evbuf(uint8_t *buf, size_t size)
 __CPROVER_requires(CAP_OK && FILE_PRE && size <= g_cap)
 __CPROVER_requires(__CPROVER_is_fresh(buf, size))
 __CPROVER_requires(WBIND(write_evbuf, w_size == size && w_len0 == g_file_len))
+#ifdef VERIF_TRACK_WFAIL
+__CPROVER_requires(g_wfail == 0)
+__CPROVER_assigns(g_file_len, g_byte, g_died, g_wfail)
+#else
 __CPROVER_assigns(g_file_len, g_byte, g_died)
+#endif
 __CPROVER_ensures(g_file_len == __CPROVER_old(g_file_len) + size)
 /* buf is outside the frame, so its post-state content is its pre-state content */
 __CPROVER_ensures(!(g_pos >= __CPROVER_old(g_file_len) && g_pos < g_file_len) || g_byte == buf[g_pos - __CPROVER_old(g_file_len)])
